@@ -60,6 +60,20 @@ def handleC02 (j : Json) : R Json := do
         | .error _ => !indom
       pure (Json.mkObj [("indomain", toJson indom), ("agree", toJson agree), ("holds", toJson holds),
         ("model_holds", toJson mholds), ("model", encodeExcept (fun s => encodeData (.bytes s)) m)])
+  | "field_struct" =>
+    -- a binary field of a user subclass whose numeric type table the model does not know:
+    -- the layout clauses (length, every byte outside the span untouched, blank padding) are
+    -- evaluated on the observation; the bytes expected inside the span come with the request
+    let f ← decodeField (← field j "field")
+    let line ← decodeData (← field j "line")
+    let out ← dataOrExc (← field j "out")
+    let span ← decodeData (← field j "span_expected")
+    let holds := match line, out, span with
+      | .bytes l, some (.bytes o), .bytes sp =>
+        Spec.C02.holdsFieldBin f l o && decide (Cfi.Text.slice o f.start f.stop = sp)
+      | _, _, _ => false
+    pure (Json.mkObj [("indomain", toJson true), ("agree", toJson true), ("holds", toJson holds),
+      ("model_holds", toJson true), ("model", Json.null)])
   | "line" =>
     let fs ← decodeFields (← field j "fields")
     let vs ← decodeVals (← field j "values")
